@@ -104,29 +104,37 @@ func (am *YAMLAccountManager) Update(account hotline.Account, newLogin string) e
 	am.mu.Lock()
 	defer am.mu.Unlock()
 
-	// If the login has changed, rename the account file.
-	if account.Login != newLogin {
-		err := os.Rename(
-			filepath.Join(am.accountDir, path.Join("/", account.Login)+".yaml"),
-			filepath.Join(am.accountDir, path.Join("/", newLogin)+".yaml"),
-		)
-		if err != nil {
+	oldLogin := account.Login
+	oldPath := filepath.Join(am.accountDir, path.Join("/", oldLogin)+".yaml")
+	newPath := filepath.Join(am.accountDir, path.Join("/", newLogin)+".yaml")
+
+	if oldLogin != newLogin {
+		if _, err := os.Stat(oldPath); err != nil {
 			return fmt.Errorf("error renaming account file: %w", err)
 		}
-
-		delete(am.accounts, account.Login)
-
-		account.Login = newLogin
-		am.accounts[newLogin] = account
 	}
+
+	account.Login = newLogin
 
 	out, err := yaml.Marshal(&account)
 	if err != nil {
 		return err
 	}
 
-	if err := os.WriteFile(filepath.Join(am.accountDir, path.Join("/", newLogin)+".yaml"), out, 0644); err != nil {
+	// Replace the account record in one step (temporary file + rename) and only then move the file to its new
+	// name.  The loader takes the login from the record itself, so a crash at any point leaves either the old
+	// account or the complete new one, never a truncated file.
+	if err := writeFileAtomic(oldPath, out, 0644); err != nil {
 		return fmt.Errorf("error writing account file: %w", err)
+	}
+
+	// If the login has changed, rename the account file.
+	if oldLogin != newLogin {
+		if err := os.Rename(oldPath, newPath); err != nil {
+			return fmt.Errorf("error renaming account file: %w", err)
+		}
+
+		delete(am.accounts, oldLogin)
 	}
 
 	am.accounts[account.Login] = account
